@@ -4,7 +4,9 @@ Real Queue + real backend under QueueLab (virtual clock, gated scripted relay, g
 yielding storage calls).  Oracle: offline scan per message marker over attempt_start /
 attempt_end events: the settled set accumulates only from outcomes the relay probe itself
 handed to the Queue; a later attempt offering a settled recipient = 'resend'; two open
-attempt intervals of one marker = 'overlap'.
+attempt intervals of one marker = 'overlap'.  Sequence results are positional (a recipient past the
+end of a short sequence is unreported, hence not settled); an address listed twice is settled by the
+result reported for that address.
 """
 import random
 import itertools
@@ -17,7 +19,9 @@ LEVEL = 'exploration'
 LEVEL_TEXT = ('Real slimta Queue on all four storage backends (dict, disk+pyaio, redis via redis-py against an '
               'in-process RESP3 server, cloud over an object-store double) driven through multi-round '
               'partial-delivery histories: exhaustive over which positions settle in round 1 and round 2 for '
-              '2..4 recipients (map and sequence results), plus seeded schedules with backoff 0, bounded pools, '
+              '2..4 recipients (map and sequence results, sequences one short of / longer than the recipient '
+              'list), over three settling rounds for 3..5 recipients, with a recipient address given twice, plus '
+              'seeded schedules with backoff 0, bounded pools, '
               'flush, duplicate wait() announcements and start() racing enqueue. Held = no resend/overlap in the '
               'histories and interleavings reported in the evidence; not a proof over all schedules.')
 LEVEL_NOTE = ('Trusted: virtual clock shim for slimta.queue (time + timed Event.wait), scripted relay probe, '
@@ -26,12 +30,16 @@ LEVEL_NOTE = ('Trusted: virtual clock shim for slimta.queue (time + timed Event.
 TECHNIQUE = 'runtime monitoring: recorded attempt history per message checked by an ordering oracle (settled-set, interval overlap) under a controlled schedule'
 RULE = ('case = one seeded history (config + PRNG seed => decision list). Exhaustive stratum: n in 2..4 recipients, '
         'every assignment of {delivered, transient, permanent} to positions in round 1 (>=1 transient, >=1 settled) '
-        'and round 2, on every backend, map and seq result shapes. Random stratum: seeded schedules. '
+        'and round 2, on every backend, map (both key orders) and seq result shapes incl. sequences one short of / '
+        'longer than the recipient list; three-round scripts for 3..5 recipients (sampled in quick); duplicate-address '
+        'scripts. Random stratum: seeded schedules. '
         'non-trivial = history with >= 2 partial rounds of one message or a duplicate announcement of a known id; '
         'distinct by (backend, per-message outcome-shape, pool config)')
 ASSUMPTIONS = ['two Queue objects over one storage (two processes) are outside C03',
                'replay of a history on disk/redis backends may order real I/O completions differently']
-REQUIRED_HITS = ['attempt-outcomes-observed', 'histories-judged', 'second-round-attempts']
+REQUIRED_HITS = ['attempt-outcomes-observed', 'histories-judged', 'second-round-attempts',
+                 'third-marking-round-attempts', 'short-sequence-partial-rounds', 'long-sequence-partial-rounds',
+                 'duplicate-address-partial-rounds']
 SHARDS = {'quick': 12, 'thorough': 16}
 BUDGET = {'quick': 75, 'thorough': 800}
 
@@ -54,9 +62,33 @@ def exhaustive_scripts(nmax):
                 yield n, [list(r1), list(r2)]
 
 
+def three_round_scripts():
+    """3..5 recipients, three rounds in each of which something settles and something is deferred."""
+    for n in (3, 4, 5):
+        for r1 in _round_patterns(n):
+            k1 = r1.count('T')
+            if k1 < 2 or k1 == n:
+                continue
+            for r2 in _round_patterns(k1):
+                k2 = r2.count('T')
+                if k2 < 1 or k2 == k1:
+                    continue
+                for r3 in itertools.product('DTP', repeat=k2):
+                    yield n, [list(r1), list(r2), list(r3)]
+
+
+def duplicate_scripts():
+    """2..3 distinct addresses + one of them given twice (n+1 positions), two rounds."""
+    for n in (2, 3):
+        for r1 in _round_patterns(n + 1):
+            for r2 in (['D'] * (n + 1), ['T'] + ['D'] * n, ['P'] * (n + 1)):
+                yield n, [list(r1), list(r2)]
+
+
 def gen_cases(tier, seed, shard, nshards):
     idx = 0
     nmax = 4
+    thin2 = itertools.count()
     for n, script in exhaustive_scripts(nmax):
         for be in BACKENDS:
             # quick: thin the expensive backends
@@ -66,14 +98,45 @@ def gen_cases(tier, seed, shard, nshards):
             if tier == 'quick' and be == 'disk' and (idx * 5 + n) % 2:
                 idx += 1
                 continue
-            for shape in ('map', 'seq', 'map-rev'):
+            for shape in ('map', 'seq', 'map-rev', 'seq-short', 'seq-long'):
                 idx += 1
                 if idx % nshards != shard:
+                    continue
+                if tier == 'quick' and be in ('redis', 'disk') and shape.startswith('seq-') and next(thin2) % 6:
                     continue
                 cfg = {'backend': be, 'script': {'m0': script}, 'script_shape': shape, 'rcpts': (n, n),
                        'nmsg': 1, 'backoffs': [0, 0, 0, None], 'steps': 14, 'null_sender_p': 0.0,
                        'gate_p': 0.35 if (idx // 3) % 2 else 0.0, 'stratum': 'exh'}
                 yield {'cfg': cfg, 'seed': seed * 1000003 + idx}
+    thin = random.Random('c03-thin-%d' % seed)
+    # the same address twice in the recipient list (RCPT TO repeated; no edge de-duplicates)
+    for n, script in duplicate_scripts():
+        for be in BACKENDS:
+            if tier == 'quick' and be in ('redis', 'disk') and thin.random() < 0.9:
+                continue
+            for shape in ('map', 'map-rev'):
+                idx += 1
+                if idx % nshards != shard:
+                    continue
+                cfg = {'backend': be, 'script': {'m0': script}, 'script_shape': shape, 'rcpts': (n, n),
+                       'dup_rcpts': 1 + idx % 5, 'nmsg': 1, 'backoffs': [0, 0, 0, None], 'steps': 14,
+                       'null_sender_p': 0.0, 'gate_p': 0.0, 'stratum': 'dup'}
+                yield {'cfg': cfg, 'seed': seed * 1000003 + idx}
+    # three settling rounds (the marks of round 3 are relative to a list reduced twice)
+    for n, script in three_round_scripts():
+        for be in BACKENDS:
+            keep = {'redis': 0.004, 'disk': 0.01}.get(be, 0.06) if tier == 'quick' else \
+                {'redis': 0.03, 'disk': 0.1}.get(be, 1.0)
+            shape = thin.choice(['map', 'seq', 'map-rev', 'seq-long'])
+            if thin.random() >= keep:
+                continue
+            idx += 1
+            if idx % nshards != shard:
+                continue
+            cfg = {'backend': be, 'script': {'m0': script}, 'script_shape': shape, 'rcpts': (n, n),
+                   'nmsg': 1, 'backoffs': [0, 0, 0, 0, None], 'steps': 18, 'null_sender_p': 0.0,
+                   'gate_p': 0.35 if idx % 2 else 0.0, 'stratum': 'exh3'}
+            yield {'cfg': cfg, 'seed': seed * 1000003 + idx}
     rnd = random.Random('c03-%d-%d' % (seed, shard))
     plan = C.backend_plan(4000 if tier == 'quick' else 120000, BACKENDS)
     for be in BACKENDS:
@@ -87,6 +150,7 @@ def gen_cases(tier, seed, shard, nshards):
                    'rcpts': (2, 5), 'nmsg': rnd.randint(1, 3),
                    'store_pool': rnd.choice([None, None, 1, 2, 3]), 'relay_pool': rnd.choice([None, None, 1, 2]),
                    'gate_p': rnd.choice([0.0, 0.25, 0.5]), 'flush_p': rnd.choice([0, 0, 0.2]),
+                   'seq_len_p': rnd.choice([0, 0.4]), 'pool_objects': rnd.random() < 0.25,
                    'synth_wait': rnd.random() < 0.6, 'announce_p': 0.4,
                    'prepop': rnd.choice([0, 0, 1, 2]), 'race_start': rnd.random() < 0.3,
                    'steps': rnd.choice([25, 40])}
@@ -99,6 +163,27 @@ def _hits(lab, H, R):
         if e[1] == 'attempt_start':
             per[e[2]] = per.get(e[2], 0) + 1
     R.hit('second-round-attempts', sum(1 for v in per.values() if v >= 2))
+    # attempts that follow >= 2 delivered-marking calls of their message
+    marks = {}
+    third = short = long_ = dup = 0
+    for e in lab.events:
+        if e[1] == 'store' and e[2] == 'set_recipients_delivered':
+            marks[H.sid(e[3])] = marks.get(H.sid(e[3]), 0) + 1
+        elif e[1] == 'attempt_start' and H.m2id.get(e[2]) is not None and marks.get(H.sid(H.m2id[e[2]]), 0) >= 2:
+            third += 1
+        elif e[1] == 'attempt_end' and e[4] in ('seq', 'map'):
+            cl = [c for c, _ in e[5].values()]
+            if 'T' in cl or 'A' in cl:
+                if e[4] == 'seq' and 'A' in cl:
+                    short += 1
+                if e[4] == 'seq' and len(e) > 7 and e[7] > 0:
+                    long_ += 1
+                if len(set(e[3])) < len(e[3]):
+                    dup += 1
+    R.hit('third-marking-round-attempts', third)
+    R.hit('short-sequence-partial-rounds', short)
+    R.hit('long-sequence-partial-rounds', long_)
+    R.hit('duplicate-address-partial-rounds', dup)
     R.count('wait-announcements-consumed', sum(1 for e in lab.events if e[1] == 'store' and e[2] == 'wait'))
 
 
@@ -120,13 +205,26 @@ def _classify(lab, H, kind, m, d):
     crash = L.crash_tag(lab)
     if kind in ('resend', 'overlap') and C.outran_enqueue(lab, H, m):
         return '%s/%s/self-announcement-outran-enqueue' % (kind, be)
+    if kind == 'resend' and all(d['attempt'][3].count(r) < _offered_before(lab, m, d['attempt'], r)
+                                for r in d['recipients']):
+        # every re-offered settled recipient is an address the message listed more than once and is now
+        # offered fewer times than before: one position of it was marked, the other(s) were not
+        return 'resend/duplicate-address-in-recipient-list-marked-once'
     if kind == 'resend':
         seq = lab.events.index(d['attempt'])
         nmark = C.marking_rounds_before(lab, H, m, seq)
         # was a delivered-marking call for this message still unfinished when the attempt's get() ran?
         pending = _mark_pending_at(lab, H, m, seq)
+        prev = None
+        for e in lab.events[:seq]:
+            if e[1] == 'attempt_end' and e[2] == m:
+                prev = e
+        odd_len = prev is not None and prev[4] == 'seq' and \
+            ((len(prev) > 7 and prev[7] > 0) or any(c == 'A' for c, _ in prev[5].values()))
         if crash != 'no-crash':
             why = crash
+        elif odd_len:
+            why = 'after-sequence-result-of-other-length-than-recipient-list'
         elif pending:
             why = 'marks-persisted-after-requeue'
         elif nmark >= 2:
@@ -139,6 +237,17 @@ def _classify(lab, H, kind, m, d):
         ann = any(e[1] == 'store' and e[2] == 'wait' for e in lab.events)
         return 'overlap/%s/%s%s' % (be, crash, '/wait-announcement' if ann else '')
     return 'unclassified/%s/%s' % (kind, be)
+
+
+def _offered_before(lab, m, attempt, r):
+    """How many times address r appeared in the widest earlier attempt of message m."""
+    n = 0
+    for e in lab.events:
+        if e is attempt:
+            break
+        if e[1] == 'attempt_start' and e[2] == m:
+            n = max(n, e[3].count(r))
+    return n
 
 
 def _mark_pending_at(lab, H, m, seq):
